@@ -260,3 +260,53 @@ for _e in ENGINES:
 LEVEL_TEXT['C20'] = 'Generated create/use/free histories across all modules with a resource census (allocations, descriptors, shared mappings, IPC names) after every episode; plus long identical-cycle runs per object kind.'
 LEVEL_NOTE['C20'] = 'Trusted: tracking allocator via p_mem_set_vtable, /proc/self/fd and /proc/self/maps census, independent SHA-1 computation of IPC file names.'
 TECHNIQUE['C20'] = 'property-based testing (rapidcheck) of lifecycle histories with a resource-census invariant + repeated-cycle amplification'
+
+# ---- C08 (in-process layer; the multi-process / concurrent layers are added by the ipcx engine) ------
+harness('shmbuf', 'engines/seq/shmbuf.cpp', 'gcc-asan')
+reg(Prop('C08', 'exploration', [
+    Sub('exh', 'shmbuf', shards=(2, 8), cases=(1, 1), env={'VERIF_SUB': 'exh'}),
+    Sub('rand', 'shmbuf', shards=(8, 16), cases=(500, 15000), maxsize=(80, 200), env={'VERIF_SUB': 'rand'}),
+], rule='sequences of write/read/clear/space queries through up to 5 handles of one name (opened with equal, zero, smaller and larger size arguments, followers closed and re-opened), capacities 1,2,3,7,8,64,1024,4079,8175 (segment ends exactly at a page boundary) and random <= 5000; '
+        'lengths generated relative to the model state (free-1, free, free+1, capacity, capacity+1, used-1, used, used+1, 0). Exhaustive sub-run: every op sequence of length <= 4 (thorough 6) over capacities 1..3 with lengths 1..S+1. '
+        'Oracle: bounded FIFO byte queue shared by all handles: return values, exact bytes in order, used + free == capacity through every handle after every operation; caller buffers are exact-size heap blocks (ASan). '
+        'Non-trivial = sequence with >= 1 write that wrapped around the ring end and >= 1 operation at a boundary (write of exactly free, write of free+1 refused, read at empty, read of more than used); distinct = distinct case text.',
+    assumptions=['zero-length read/write: the API reports an invalid-argument failure; accepted as "nothing happens" (0 or -1) - the property text says 0-length operations are in scope but does not fix their return value',
+                 'overruns of the segment inside its last page are invisible to ASan; capacities that end the segment exactly at a page boundary turn them into faults'],
+    corpus_harness='shmbuf', design_ref='4/C08'))
+ENGINES[0]['serves_properties'].append('C08')
+LEVEL_TEXT['C08'] = 'Generated operation sequences through several handles compared step by step with a bounded FIFO byte queue; exhaustive for tiny capacities; multi-process and concurrent producer/consumer histories through the ipcx engine.'
+LEVEL_NOTE['C08'] = 'Trusted: std::deque reference; ASan. One process for the sequential layer.'
+TECHNIQUE['C08'] = 'property-based testing (rapidcheck, model-based vs FIFO queue) + bounded-exhaustive enumeration + multi-process histories'
+
+# ---- ipcx: multi-process engine (C06, C07, C08 multi-process layer) ------------------------------------
+harness('ipcx', 'engines/ipcx/ipcx.cpp', 'gcc-asan-wrapipc', libs='-lrapidcheck -lcrypto')
+_ipc_assume = ["IPC names are private to the run (prefix with the coordinator pid); the expected /dev/shm file names are computed independently (SHA-1) and the semaphore counter is observed with sem_getvalue on the coordinator's own handle of that generation",
+               'blocking is decided one-sidedly: "must block" = no reply within the grace period (150 ms quick / 400 ms thorough); a worker that does not answer within 10 s makes the case inconclusive',
+               'crash points are before/after each IPC libc call made by the library objects (sem_open, sem_close, sem_unlink, sem_wait, sem_post, shm_open, shm_unlink, ftruncate, mmap, munmap, close), interposed with objcopy --redefine-syms']
+reg(Prop('C06', 'exploration', [
+    Sub('hist', 'ipcx', shards=(8, 16), cases=(120, 1500), maxsize=(60, 100), env={'VERIF_SUB': 'hist'}, timeout=(900, 3600)),
+    Sub('kills', 'ipcx', shards=(4, 8), cases=(80, 1000), maxsize=(60, 100), env={'VERIF_SUB': 'kills'}, timeout=(900, 3600)),
+    Sub('enum', 'ipcx', shards=(4, 4), cases=(1, 1), env={'VERIF_SUB': 'enum'}, timeout=(900, 3600)),
+], rule='histories of new(OPEN|CREATE, init 0,1,2,3,7)/acquire/release/take_ownership/free over 3 names and handle slots spread over 3-4 worker processes, interpreted model-driven (acquire on an empty counter becomes "must block, then complete after a release through another handle"), '
+        'k-exclusion phases (W processes x rounds on a counter v < W), SIGKILL of a worker at a generated point of new/acquire/free followed by the documented clean-up from another process; enum sub-run: every kill point of new (OPEN|CREATE x absent|existing name), free (owner|non-owner) and acquire. '
+        'Oracle: reference model name -> generation -> counter, handle -> (generation, owner); counters compared after every step; name presence in /dev/shm per owner/non-owner free; clean-up open/take_ownership/free/create succeeds with the exact new value. '
+        'Non-trivial = >= 2 handles of one generation in >= 2 processes and a new on an existing name and an operation through a handle other than the one that last changed the counter, or a kill; distinct = distinct history text.',
+    assumptions=_ipc_assume, corpus_harness='ipcx', design_ref='4/C06, 3.2'))
+reg(Prop('C07', 'exploration', [
+    Sub('hist', 'ipcx', shards=(8, 16), cases=(120, 1500), maxsize=(60, 100), env={'VERIF_SUB': 'hist'}, timeout=(900, 3600)),
+    Sub('kills', 'ipcx', shards=(4, 8), cases=(80, 1000), maxsize=(60, 100), env={'VERIF_SUB': 'kills'}, timeout=(900, 3600)),
+    Sub('enum', 'ipcx', shards=(4, 4), cases=(1, 1), env={'VERIF_SUB': 'enum'}, timeout=(900, 3600)),
+], rule='histories of new(size from 1,7,100,4095,4096,4097,8192,65537; read-only followers)/store/load (offsets 0, size-1, page edge)/lock/unlock/take_ownership/free over 2 names and 3 processes, lock phases (N processes x M rounds of lock; non-atomic counter++ in the segment; unlock), '
+        'first-use races (a second process runs its whole p_shm_new while the creator is parked at a generated point of its own), SIGKILL inside new/lock with documented clean-up; enum sub-run: every kill point of p_shm_new (absent|existing) and every pause point of the race x 3 sizes. '
+        'Oracle: byte-array model per generation read back through every handle; creator size exact, equal size arguments report equal sizes, never above the segment; every byte below the reported size accessible; lock must block across processes and the in-segment counter must not lose updates; '
+        'owner free removes segment and lock names; clean-up after a kill yields a fresh zeroed segment of the new size with a working lock. Non-trivial = a byte stored by one process loaded by another, a race with both creators alive, or a kill; distinct = distinct history text.',
+    assumptions=_ipc_assume, corpus_harness='ipcx', design_ref='4/C07, 3.2'))
+PROPS['C08'].subs += [Sub('mp', 'ipcx', shards=(6, 12), cases=(100, 1500), maxsize=(60, 100), env={'VERIF_SUB': 'hist'}, timeout=(900, 3600))]
+PROPS['C08'].rule += ' Multi-process layer: the same operations spread over handles in 3 worker processes against one FIFO model in the coordinator, plus concurrent producer/consumer phases moving sequence-numbered frames (whole frames, per-producer order).'
+ENGINES.append(dict(name='ipcx', path='engines/ipcx', serves_properties=['C06', 'C07', 'C08'], kind_free_text='multi-process step executor: generated histories, reference model in the coordinator, kill/pause points on interposed IPC libc calls'))
+LEVEL_TEXT['C06'] = 'Model-based multi-process histories with counter observation after every step, blocking probes, k-exclusion phases and SIGKILL at every IPC call boundary (enumerated) followed by the documented clean-up.'
+LEVEL_TEXT['C07'] = 'Model-based multi-process histories (byte model, sizes, cross-process lock), enumerated first-use race positions and kill points with the documented clean-up.'
+LEVEL_NOTE['C06'] = 'Trusted: coordinator model, sem_getvalue on an independently opened handle, grace-period logic (one-sided).'
+LEVEL_NOTE['C07'] = 'Trusted: coordinator model, independent name computation, grace-period logic (one-sided). Two known findings (first-use race window, unsized segment after a kill) are excluded by construction when their probes still fail.'
+TECHNIQUE['C06'] = 'stateful property-based testing across processes (rapidcheck histories, reference model) + fault injection (kill-point enumeration)'
+TECHNIQUE['C07'] = 'stateful property-based testing across processes + enumerated race positions (pause points) and kill points'
